@@ -109,7 +109,7 @@ func genOps(rt *rapid.T, maxOps int, allowBig bool) []c24Op {
 		}
 		o := c24Op{Kind: "ids", Blocking: rapid.Bool().Draw(rt, "blocking"), N: genN(rt)}
 		if validN(o.N) {
-			o.K = genK(rt, o.N, o.Blocking, allowBig && bigs < 2)
+			o.K = genK(rt, o.N, o.Blocking, allowBig && bigs < 2 && o.Blocking)
 			if o.K < 0 && !o.Blocking && rapid.IntRange(0, 2).Draw(rt, "keep_nonblocking_stop") != 0 {
 				o.K = 0 // a stop on a non-blocking request ends the history: keep it rare
 			}
@@ -462,7 +462,7 @@ func c24RealReal(x *c24Ctx, ops []c24Op) {
 					client.Start()
 					client.Init()
 				})
-				if !restarted || !sv.waitInit(5*time.Second) {
+				if !restarted || !sv.waitInit(3*time.Second) {
 					rec.Class("A:restart_not_usable")
 					x.cs["ended"] = fmt.Sprintf("Done after blocking request; restart not usable (client errs %v, server errs %v)", p.cliErr.list(), p.srvErr.list())
 					return
@@ -559,13 +559,13 @@ func c24RawClient(x *c24Ctx, ops []c24Op) {
 	}
 	defer h.close()
 	server := h.oc.TxSubmission().Server
-	sendInit := func() bool {
+	sendInit := func(d time.Duration) bool {
 		if err := h.peer.SendMsg(protoTxSubmission, false, xcbor.A(xcbor.U(6)).Encode()); err != nil {
 			return false
 		}
-		return sv.waitInit(setupWait)
+		return sv.waitInit(d)
 	}
-	if !sendInit() {
+	if !sendInit(setupWait) {
 		rt.Fatalf("setup: server InitFunc not called (server errs %v)", h.errs.list())
 	}
 	var w window
@@ -691,7 +691,7 @@ func c24RawClient(x *c24Ctx, ops []c24Op) {
 			rec.Class("B:done_then_new_session")
 			old := server.ProtocolInstance()
 			if err := h.peer.SendMsg(protoTxSubmission, false, xcbor.A(xcbor.U(4)).Encode()); err != nil {
-				rt.Fatalf("send Done: %v", err)
+				rt.Fatalf("op %d %s: send Done: %v (server errs %v)", i, o, err, h.errs.list())
 			}
 			select {
 			case r = <-ch:
@@ -710,7 +710,7 @@ func c24RawClient(x *c24Ctx, ops []c24Op) {
 				time.Sleep(time.Millisecond)
 			}
 			time.Sleep(x.settle)
-			if !sendInit() {
+			if !sendInit(3 * time.Second) {
 				rec.Class("B:restart_not_usable")
 				x.cs["ended"] = fmt.Sprintf("restart after Done not usable (server errs %v)", h.errs.list())
 				return
@@ -725,7 +725,7 @@ func c24RawClient(x *c24Ctx, ops []c24Op) {
 			k = 0 // a raw client cannot end on a non-blocking request; answer empty
 		}
 		if err := h.peer.SendMsg(protoTxSubmission, false, replyTxIdsNode(serial+1, k, indef).Encode()); err != nil {
-			rt.Fatalf("send reply: %v", err)
+			rt.Fatalf("op %d %s: send reply: %v (server errs %v)", i, o, err, h.errs.list())
 		}
 		select {
 		case r = <-ch:
